@@ -76,6 +76,7 @@ structure Term where
   pending : Option (Nat × Nat) := none   -- (op, start) of the attempt in flight
   lastStart : Nat := 0                   -- start of the previous attempt (or of the term)
   lastFinish : Nat := 0
+  attempts : Nat := 0                    -- refresh attempts of this term so far
   mustDemote : Option Nat := none        -- the loop has decided to demote at that instant
   deriving Repr, Inhabited
 
@@ -156,7 +157,10 @@ def step (s : State) (te : TEv) : R State :=
           else if tm.pending.isSome then reject s!"instance {i}: refresh attempt while the previous one is neither answered nor timed out"
           else if t > max tm.lastFinish (tm.lastStart + x.cfg.hb) + (if x.cfg.hasHealth then Gen.healthTimeout else 0) then
             reject s!"instance {i}: refresh attempt at {t}, later than a tick after the previous attempt (start {tm.lastStart}, finish {tm.lastFinish})"
-          else pure { (s.set { x with term := some { tm with pending := some (op, t), lastStart := t } }) with ops := (op, i) :: s.ops }
+          else if t < tm.since + (tm.attempts + 1) * x.cfg.hb then
+            -- the loop is paced by a ticker of period H created when the term began: the k-th attempt cannot precede the k-th tick
+            reject s!"instance {i}: refresh attempt number {tm.attempts + 1} of the term at {t}, before the tick at {tm.since + (tm.attempts + 1) * x.cfg.hb}"
+          else pure { (s.set { x with term := some { tm with pending := some (op, t), lastStart := t, attempts := tm.attempts + 1 } }) with ops := (op, i) :: s.ops }
   | .ret op r =>
     match s.ops.find? (·.1 = op) with
     | none => pure s
